@@ -1,5 +1,6 @@
 import HbsModel.Props.C01c
 import HbsModel.Lemmas.IfValue
+import HbsModel.Lemmas.UnlessValue
 /-
   C06 (continued)  `if` does not change the current context – at source level: a path inside `{{#if v}} … {{/if}}` means what it
   means outside the block.
@@ -53,16 +54,20 @@ theorem render_x_body (reg : Registry) (root jx : Json) (rc0 rcS : RC) (out : Ou
   simp only [↓reduceIte]
   exact hmB
 
-/-- the block element `{{#if v}}{{x}}{{/if}}` compiles to: the escaped text of `data.x` – the field of the scope the block stands
-    in – when `data.v` is truthy, nothing otherwise; the render state as it was (up to the write flags) -/
-theorem if_value_block_writes (reg : Registry) (root j jx : Json) (rc0 : RC) (lc : Nat × Nat)
+/-- `if` and `unless` at once (`positive` = which of the two the registry binds the name to): ANY block element calling the helper on
+    the path `v` whose body is the one value tag `{{x}}`, without an else branch, writes the escaped text of `data.x` – the field of the
+    scope the block stands in – when the condition selects the body, nothing otherwise; the render state as it was (up to the write flags) -/
+theorem cond_value_block_writes (positive : Bool) (nm : Str) (reg : Registry) (root j jx : Json) (rc0 : RC) (ht : HelperT) (lc : Nat × Nat)
+    (hname : ht.name = .name nm) (hparams : ht.params = [.path (Path.new ['v'] [.named ['v']])]) (hhash : ht.hash = [])
+    (htpl : ht.template = some (PlainText.ifvBody lc)) (hinv : ht.inverse = none)
     (hde : rc0.disableEscape = false)
     (hlx : assocGet rc0.localHelpers ['x'] = none) (hrx : assocGet reg.helpers ['x'] = none)
     (hsafex : Spec.indexSafe root [['x']] = true) (hjx : Spec.descend root [['x']] = some jx)
     (hb : rc0.blocks = [{}]) (hi : rc0.indentString = none) (hmc : rc0.modifiedCtx = none) (hct : rc0.currentTemplate = none)
-    (hl : assocGet rc0.localHelpers ['i', 'f'] = none) (hr : assocGet reg.helpers ['i', 'f'] = some (.ifH true))
+    (hl : assocGet rc0.localHelpers nm = none) (hr : assocGet reg.helpers nm = some (.ifH positive))
     (hsafe : Spec.indexSafe root [['v']] = true) (hj : Spec.descend root [['v']] = some j) :
-    WritesTextK 9 reg root rc0 (.block (PlainText.ifvHT (PlainText.ifvBody lc))) (if j.truthy false then reg.escape jx.render else []) := by
+    WritesTextK 9 reg root rc0 (.block ht)
+      (if (if positive then j.truthy false else !j.truthy false) then reg.escape jx.render else []) := by
   intro fuel0 rc out hq hf
   rw [show fuel0 + 9 = (fuel0 + 3) + 6 by omega]
   generalize hfu : fuel0 + 3 = fuel
@@ -76,37 +81,64 @@ theorem if_value_block_writes (reg : Registry) (root j jx : Json) (rc0 : RC) (lc
     simp [Spec.descend] at hj' ⊢
     rw [hj']
   have hmc' : rc.modifiedCtx = none := by rw [hq]; exact hmc
-  have hl' : assocGet rc.localHelpers ['i', 'f'] = none := by rw [hq]; exact hl
+  have hl' : assocGet rc.localHelpers nm = none := by rw [hq]; exact hl
   have hpath : Path.new ['v'] [.named ['v']] = .relative [.named ['v']] ['v'] := rfl
-  have hh : helperFromTemplate reg root (fuel + 4) (PlainText.ifvHT (PlainText.ifvBody lc)) rc out
-      = .ok { name := ['i', 'f'], params := [⟨some ['v'], .context j [['v']]⟩], hash := [], template := some (PlainText.ifvBody lc),
-              inverse := none, blockParam := none, block := true } rc out := by
-    simp [helperFromTemplate, PlainText.ifvHT, PlainText.ifOpen, HelperG.new, expandAsName, expandParams, expandParam, expandHash,
+  have hh : helperFromTemplate reg root (fuel + 4) ht rc out
+      = .ok { name := nm, params := [⟨some ['v'], .context j [['v']]⟩], hash := [], template := some (PlainText.ifvBody lc),
+              inverse := none, blockParam := ht.blockParam, block := ht.block } rc out := by
+    simp [helperFromTemplate, hname, hparams, hhash, htpl, hinv, expandAsName, expandParams, expandParam, expandHash,
       RM.bnd_apply, hmc', hpath, hev, Path.raw]
-  have hm1 := quiet_modifyAux rc0 rc (fun r => { r with contentProduced := false, indentBeforeWrite := rc.indentBeforeWrite || ((PlainText.ifvHT (PlainText.ifvBody lc)).indentBeforeWrite && r.trailingNewline) }) out hq (hq.flags _ _ _)
-  have hcall := if_renders_selected reg root (fuel + 3) true { name := ['i', 'f'], params := [⟨some ['v'], .context j [['v']]⟩], hash := [], template := some (PlainText.ifvBody lc), inverse := none, blockParam := none, block := true } ⟨some ['v'], .context j [['v']]⟩ [] rfl
-  have hc4 : callHelper reg root (fuel + 4) (.ifH true) { name := ['i', 'f'], params := [⟨some ['v'], .context j [['v']]⟩], hash := [], template := some (PlainText.ifvBody lc), inverse := none, blockParam := none, block := true } = _ := hcall
+  have hm1 := quiet_modifyAux rc0 rc (fun r => { r with contentProduced := false, indentBeforeWrite := rc.indentBeforeWrite || (ht.indentBeforeWrite && r.trailingNewline) }) out hq (hq.flags _ _ _)
+  have hcall := if_renders_selected reg root (fuel + 3) positive { name := nm, params := [⟨some ['v'], .context j [['v']]⟩], hash := [], template := some (PlainText.ifvBody lc), inverse := none, blockParam := ht.blockParam, block := ht.block } ⟨some ['v'], .context j [['v']]⟩ [] rfl
+  have hc4 : callHelper reg root (fuel + 4) (.ifH positive) { name := nm, params := [⟨some ['v'], .context j [['v']]⟩], hash := [], template := some (PlainText.ifvBody lc), inverse := none, blockParam := ht.blockParam, block := ht.block } = _ := hcall
   simp only [renderElem, renderHelper, RM.bind_def, RM.bnd_apply, hh, RM.get_apply, hl', hr, hm1, hc4]
   have hz : ((assocGet ([] : List (Str × PJ)) (str "includeZero")).bind fun x => x.json.asBool?).getD false = false := by simp [assocGet]
   have hjs : ({ relPath := some ['v'], value := SJ.context j [['v']] } : PJ).json = j := rfl
-  have hibw : (PlainText.ifvHT (PlainText.ifvBody lc)).indentBeforeWrite = false := rfl
-  simp only [hz, hjs, if_true, hibw, Bool.false_and, Bool.or_false]
-  have hqA : Quiet rc0 { rc with contentProduced := false } := hq.flags _ _ _
-  by_cases ht : j.truthy false = true
-  · simp only [ht, if_true]
-    obtain ⟨rc2, out2, hbody, hq2, hf2, ht2⟩ := render_x_body reg root jx rc0 { rc with contentProduced := false } out lc fuel0
-      hb hi hct hmc hde hlx hrx hsafex hjx hqA hf
-    rw [← hfu, show fuel0 + 3 + 3 = fuel0 + 6 by omega, hbody]
-    simp only []
+  simp only [hz, hjs]
+  have hqA : Quiet rc0 { rc with contentProduced := false, indentBeforeWrite := rc.indentBeforeWrite || (ht.indentBeforeWrite && rc.trailingNewline) } := hq.flags _ _ _
+  have finish : ∀ (rc2 : RC) (out2 : Out) (txt : Str), Quiet rc0 rc2 → out2.failAt = none → out2.text = out.text ++ txt →
+      ∃ rc' out', RM.modifyAux (fun rc_1 : RC => if rc_1.contentProduced = true then { rc_1 with indentBeforeWrite := rc_1.trailingNewline } else { rc_1 with contentProduced := rc.contentProduced, indentBeforeWrite := rc.indentBeforeWrite }) rc2 out2 = .ok () rc' out'
+        ∧ Quiet rc0 rc' ∧ out'.failAt = none ∧ out'.text = out.text ++ txt := by
+    intro rc2 out2 txt hq2 hf2 ht2
     have hqG : Quiet rc0 ((fun rc_1 : RC => if rc_1.contentProduced = true then { rc_1 with indentBeforeWrite := rc_1.trailingNewline } else { rc_1 with contentProduced := rc.contentProduced, indentBeforeWrite := rc.indentBeforeWrite }) rc2) := by
       by_cases hcp : rc2.contentProduced = true
       · simp only [hcp, ↓reduceIte]; exact Quiet.flags hq2 _ _ _
       · simp only [hcp, ↓reduceIte]; exact Quiet.flags hq2 _ _ _
     exact ⟨_, _, quiet_modifyAux rc0 _ _ out2 hq2 hqG, hqG, hf2, ht2⟩
+  by_cases ht : (if positive = true then j.truthy false else !j.truthy false) = true
+  · simp only [ht, if_true]
+    obtain ⟨rc2, out2, hbody, hq2, hf2, ht2⟩ := render_x_body reg root jx rc0 _ out lc fuel0
+      hb hi hct hmc hde hlx hrx hsafex hjx hqA hf
+    rw [← hfu, show fuel0 + 3 + 3 = fuel0 + 6 by omega, hbody]
+    exact finish rc2 out2 _ hq2 hf2 ht2
   · simp only [ht, Bool.false_eq_true, if_false]
-    have hqG : Quiet rc0 ((fun rc_1 : RC => if rc_1.contentProduced = true then { rc_1 with indentBeforeWrite := rc_1.trailingNewline } else { rc_1 with contentProduced := rc.contentProduced, indentBeforeWrite := rc.indentBeforeWrite }) { rc with contentProduced := false }) := by
-      simp only [Bool.false_eq_true, ↓reduceIte]; exact Quiet.flags hqA _ _ _
-    exact ⟨_, _, quiet_modifyAux rc0 _ _ out hqA hqG, hqG, hf, by simp⟩
+    exact finish _ out [] hqA hf (by simp)
+
+/-- the block element `{{#if v}}{{x}}{{/if}}` compiles to -/
+theorem if_value_block_writes (reg : Registry) (root j jx : Json) (rc0 : RC) (lc : Nat × Nat)
+    (hde : rc0.disableEscape = false)
+    (hlx : assocGet rc0.localHelpers ['x'] = none) (hrx : assocGet reg.helpers ['x'] = none)
+    (hsafex : Spec.indexSafe root [['x']] = true) (hjx : Spec.descend root [['x']] = some jx)
+    (hb : rc0.blocks = [{}]) (hi : rc0.indentString = none) (hmc : rc0.modifiedCtx = none) (hct : rc0.currentTemplate = none)
+    (hl : assocGet rc0.localHelpers ['i', 'f'] = none) (hr : assocGet reg.helpers ['i', 'f'] = some (.ifH true))
+    (hsafe : Spec.indexSafe root [['v']] = true) (hj : Spec.descend root [['v']] = some j) :
+    WritesTextK 9 reg root rc0 (.block (PlainText.ifvHT (PlainText.ifvBody lc))) (if j.truthy false then reg.escape jx.render else []) := by
+  have := cond_value_block_writes true ['i', 'f'] reg root j jx rc0 (PlainText.ifvHT (PlainText.ifvBody lc)) lc rfl rfl rfl rfl rfl
+    hde hlx hrx hsafex hjx hb hi hmc hct hl hr hsafe hj
+  simpa using this
+
+/-- the block element `{{#unless v}}{{x}}{{/unless}}` compiles to -/
+theorem unless_value_block_writes (reg : Registry) (root j jx : Json) (rc0 : RC) (lc : Nat × Nat)
+    (hde : rc0.disableEscape = false)
+    (hlx : assocGet rc0.localHelpers ['x'] = none) (hrx : assocGet reg.helpers ['x'] = none)
+    (hsafex : Spec.indexSafe root [['x']] = true) (hjx : Spec.descend root [['x']] = some jx)
+    (hb : rc0.blocks = [{}]) (hi : rc0.indentString = none) (hmc : rc0.modifiedCtx = none) (hct : rc0.currentTemplate = none)
+    (hl : assocGet rc0.localHelpers ['u', 'n', 'l', 'e', 's', 's'] = none) (hr : assocGet reg.helpers ['u', 'n', 'l', 'e', 's', 's'] = some (.ifH false))
+    (hsafe : Spec.indexSafe root [['v']] = true) (hj : Spec.descend root [['v']] = some j) :
+    WritesTextK 9 reg root rc0 (.block (PlainText.unvHT (PlainText.unvBody lc))) (if j.truthy false then [] else reg.escape jx.render) := by
+  have := cond_value_block_writes false ['u', 'n', 'l', 'e', 's', 's'] reg root j jx rc0 (PlainText.unvHT (PlainText.unvBody lc)) lc rfl rfl rfl rfl rfl
+    hde hlx hrx hsafex hjx hb hi hmc hct hl hr hsafe hj
+  by_cases ht : j.truthy false = true <;> simpa [ht] using this
 
 /-- `{{#if v}}{{x}}{{/if}}` -/
 abbrev ifValueSrc : Str := PlainText.ifvSrc
@@ -164,8 +196,65 @@ theorem if_keeps_the_current_context (r : Registry) (fs : FS) (L R : Str) (data 
   simp only [Tmpl.name] at this ⊢
   rw [this, htxt]
 
+/-- `{{#unless v}}{{x}}{{/unless}}` -/
+abbrev unlessValueSrc : Str := PlainText.unvSrc
+
+/-- **`unless` does not change the current context either** – at source level: for every text `L`, `R`, every data value and every escape
+    function, `L ++ {{#unless v}}{{x}}{{/unless}} ++ R` renders `L ++ escape(text of data.x) ++ R` when `data.v` is FALSY and `L ++ R`
+    otherwise: the path `x` inside the block is the field `x` of the scope the block stands in – exactly what `{{x}}` means
+    outside the block (`C02.name_between_texts_escaped_once`) –, whatever `data.v` holds.  Through the regenerated grammar (the 13
+    pairs of the block by kernel evaluation), compile2 (a value tag compiled inside an open block), the `unless` helper (the same helper with the condition negated; no block
+    pushed: `if_renders_selected`) and `navigate`. -/
+theorem unless_keeps_the_current_context (r : Registry) (fs : FS) (L R : Str) (data j jx : Json)
+    (hdev : r.dev = false)
+    (hL : L = [] ∨ PlainText.TextBeforeTag L) (hR : PlainText.noOpen R)
+    (hif : assocGet r.helpers ['u', 'n', 'l', 'e', 's', 's'] = some (.ifH false))
+    (hnohelper : assocGet r.helpers ['x'] = none)
+    (hsafe : Spec.indexSafe data [['v']] = true) (hj : Spec.descend data [['v']] = some j)
+    (hsafex : Spec.indexSafe data [['x']] = true) (hjx : Spec.descend data [['x']] = some jx) :
+    r.renderTemplate fs (L ++ unlessValueSrc ++ R) data = .ok (L ++ (if j.truthy false then [] else r.escape jx.render) ++ R) := by
+  unfold Registry.renderTemplate Registry.renderTemplateToWrite Registry.renderTemplateWithContextToWrite
+    Registry.compileForRenderTemplate
+  obtain ⟨m, hcomp⟩ := PlainText.compile_text_unv_text L _ _ { preventIndent := r.preventIndent } hL (PlainText.textAfterTag_split R hR)
+  rw [← PlainText.split_ws R] at hcomp
+  rw [show unlessValueSrc = PlainText.unvSrc from rfl, hcomp]
+  simp only [Registry.renderResolved, hdev, Bool.not_false, ↓reduceIte]
+  generalize Pest.lineCol (L ++ PlainText.unvSrc ++ R) (L.length + 13) = lc
+  let txt : Str := if j.truthy false then [] else r.escape jx.render
+  let ets : List (Elem × Str) := (if L = [] then [] else [(.raw L, L)]) ++ [(.block (PlainText.unvHT (PlainText.unvBody lc)), txt)]
+    ++ (if R = [] then [] else [(.raw R, R)])
+  have hel : (PlainText.leftT L L).elements ++ [Elem.block (PlainText.unvHT (PlainText.unvBody lc))] ++ (if R = [] then [] else [Elem.raw R])
+      = ets.map (·.1) := by
+    simp only [ets]
+    by_cases hLe : L = [] <;> by_cases hRe : R = [] <;> simp [hLe, hRe, PlainText.leftT, Tmpl.empty, Tmpl.elements]
+  have htxt : (ets.map (·.2)).flatten = L ++ txt ++ R := by
+    simp only [ets]
+    by_cases hLe : L = [] <;> by_cases hRe : R = [] <;> simp [hLe, hRe]
+  rw [hel]
+  have hw : ∀ p ∈ ets, WritesTextK 9 r data { ({ rootTemplate := none } : RC) with currentTemplate := none } p.1 p.2 := by
+    intro p hp
+    simp only [ets, List.mem_append, List.mem_singleton] at hp
+    rcases hp with (hp | rfl) | hp
+    · split at hp
+      · simp at hp
+      · simp at hp; subst hp; exact (writes_raw r data _ rfl L).toK _ (by omega)
+    · exact unless_value_block_writes r data j jx _ lc rfl rfl hnohelper hsafex hjx rfl rfl rfl rfl rfl hif hsafe hj
+    · split at hp
+      · simp at hp
+      · simp at hp; subst hp; exact (writes_raw r data _ rfl R).toK _ (by omega)
+  have hlen : ets.length + 9 + 6 ≤ renderFuel := by
+    have h1 : (if L = [] then [] else [((Elem.raw L, L) : Elem × Str)]).length ≤ 1 := by split <;> simp
+    have h2 : (if R = [] then [] else [((Elem.raw R, R) : Elem × Str)]).length ≤ 1 := by split <;> simp
+    simp only [ets, List.length_append, List.length_singleton]
+    have : renderFuel = 4000 := rfl
+    omega
+  have := render_writes_templateK 9 r data none ets m { rootTemplate := none } hlen hw
+  simp only [Tmpl.name] at this ⊢
+  rw [this, htxt]
+
 /-- the hypotheses are satisfiable: the default registry, a truthy `v`, a field `x` -/
-example : assocGet Registry.new.helpers ['i', 'f'] = some (.ifH true) ∧ assocGet Registry.new.helpers ['x'] = none := by
-  constructor <;> rfl
+example : assocGet Registry.new.helpers ['i', 'f'] = some (.ifH true) ∧ assocGet Registry.new.helpers ['x'] = none
+    ∧ assocGet Registry.new.helpers ['u', 'n', 'l', 'e', 's', 's'] = some (.ifH false) := by
+  refine ⟨rfl, rfl, rfl⟩
 
 end Hbs.C06
